@@ -326,6 +326,44 @@ theorem step_flagArg {cfg : Cfg} {st : St} {lead key pre post junk trail n : Byt
   rw [htext, step_header cfg st hlead hkey hp hrest, findOption_of_lookup hlk]
   simp [hq, p, hkind, hskip, reportError, hthrow, applyItem, findOption_of_lookup hlk, addErr]
 
+/-- a value given to a flag, any error handler -/
+theorem step_flagArg_general {cfg : Cfg} {st : St} {lead key pre post junk trail n : Bytes}
+    (hlead : Blank lead) (hwf : (Item.flagArg key pre post junk).WF cfg)
+    (hK : EndsToken (trail ++ n)) :
+    ∃ d ob, lookup cfg.table key = some (d, ob) ∧
+    step cfg (lead ++ ((Item.flagArg key pre post junk).render ++ (trail ++ n))) st =
+      reportError cfg (.flagArg key) (trail ++ n) (noteMatch d key ob st) := by
+  obtain ⟨⟨hkey, _⟩, hpre, hpost, ⟨d, ob, hlk, hkind⟩, hne, hj, h63⟩ := hwf
+  let p : Sep := { pre := pre, eq := true, post := post }
+  have hp : p.WF := ⟨hpre, hpost⟩
+  have hjs : ∀ c ∈ junk, (fun x => !isSpace x) c = true := by intro c hc; simp [hj c hc]
+  obtain ⟨c, r, hcr⟩ : ∃ c r, junk = c :: r := by
+    cases junk with
+    | nil => exact absurd rfl hne
+    | cons c r => exact ⟨c, r, rfl⟩
+  have f1 := hj c (by simp [hcr])
+  have hrest : RestOk p (junk ++ (trail ++ n)) := by
+    refine ⟨by simp [hcr, StopsAt, f1], fun he => by simp [p] at he⟩
+  have hq : isQuery (junk ++ (trail ++ n)) = false := by
+    rw [hcr]
+    cases r with
+    | nil =>
+      have : c.toNat ≠ 63 := by
+        intro h; apply h63; rw [hcr]
+        have : c = 63 := UInt8.toNat_inj.mp (by simpa using h)
+        rw [this]
+      simp [isQuery, this]
+    | cons e t =>
+      have fe := hj e (by simp [hcr])
+      simp [isQuery, fe]
+  have htext : lead ++ ((Item.flagArg key pre post junk).render ++ (trail ++ n)) =
+      lead ++ (key ++ (p.render ++ (junk ++ (trail ++ n)))) := by
+    simp [Item.render, Sep.render, p, List.append_assoc]
+  have hskip : skipNonSpaces (junk ++ (trail ++ n)) = trail ++ n := dropWhile_append_stop hjs hK
+  refine ⟨d, ob, hlk, ?_⟩
+  rw [htext, step_header cfg st hlead hkey hp hrest, findOption_of_lookup hlk]
+  simp [hq, p, hkind, hskip]
+
 theorem renderAll_startsItem (cfg : Cfg) (items : List (Item × Bytes)) (h : ItemsWF cfg items) :
     StartsItem (renderAll items) := by
   cases items with
